@@ -17,7 +17,7 @@ def scripts(ctx, deep=False):
     files = [r.outfile]
     if deep:
         rs = tlc.run_tlc(ctx.scratch("svccall-sim"), "SvcCall.tla", "SvcCall_sim.cfg", timeout=1800, workers=1, out_name="svcsim.out", heap="4g",
-                         simulate="num=400", depth=40, seed=ctx.seed)
+                         simulate="num=3000", depth=40, seed=ctx.seed)
         tlc.require_ok(rs, "SvcCall (simulation)")
         files.append(rs.outfile)
     return r, files
